@@ -135,23 +135,43 @@ func (s *Spec) emitTypeDecl(b *strings.Builder, t *Type, pkg string) {
 	mk, h := s.fn("mk", t.ID, pkg), s.fn("h", t.ID, pkg)
 	switch t.Kind {
 	case KStruct:
-		fmt.Fprintf(b, "type %s struct {\n\tv probe.V\n", t.Name)
+		if t.Pure {
+			fmt.Fprintf(b, "type %s struct {\n", t.Name)
+		} else {
+			fmt.Fprintf(b, "type %s struct {\n\tv probe.V\n", t.Name)
+		}
 		for _, f := range t.Fields {
+			tag := ""
+			if f.Tag != "" {
+				tag = " `" + f.Tag + "`"
+			}
 			if f.Embedded {
-				fmt.Fprintf(b, "\t%s\n", s.Expr(f.T, pkg))
+				fmt.Fprintf(b, "\t%s%s\n", s.Expr(f.T, pkg), tag)
 			} else {
-				fmt.Fprintf(b, "\t%s %s\n", f.Name, s.Expr(f.T, pkg))
+				fmt.Fprintf(b, "\t%s %s%s\n", f.Name, s.Expr(f.T, pkg), tag)
 			}
 		}
-		fmt.Fprintf(b, "\thidden%d int\n}\n\n", t.ID)
+		if t.Pure {
+			fmt.Fprintf(b, "}\n\n")
+		} else {
+			fmt.Fprintf(b, "\thidden%d int\n}\n\n", t.ID)
+		}
 		recv := "x " + t.Name
 		if t.PtrRecv {
 			recv = "x *" + t.Name
 		}
 		for _, it := range t.Impl {
-			fmt.Fprintf(b, "func (%s) H%s() uint64 { return x.v.H }\n", recv, s.Types[it].Name)
+			if t.PtrRecv {
+				fmt.Fprintf(b, "func (%s) H%s() uint64 { return %s(*x) }\n", recv, s.Types[it].Name, h)
+			} else {
+				fmt.Fprintf(b, "func (%s) H%s() uint64 { return %s(x) }\n", recv, s.Types[it].Name, h)
+			}
 		}
-		fmt.Fprintf(b, "func %s(h uint64) %s {\n\tx := %s{v: probe.V{H: h}}\n", mk, ex, t.Name)
+		if t.Pure {
+			fmt.Fprintf(b, "func %s(h uint64) %s {\n\tx := %s{}\n", mk, ex, t.Name)
+		} else {
+			fmt.Fprintf(b, "func %s(h uint64) %s {\n\tx := %s{v: probe.V{H: h}}\n", mk, ex, t.Name)
+		}
 		for fi, f := range t.Fields {
 			if !s.carriesH(s.Types[f.T]) {
 				continue
@@ -159,7 +179,27 @@ func (s *Spec) emitTypeDecl(b *strings.Builder, t *Type, pkg string) {
 			fmt.Fprintf(b, "\tx.%s = mk%d(probe.Mix(h, %d))\n", f.Name, f.T, 1000+fi) // structs with fields live in the main package
 		}
 		fmt.Fprintf(b, "\treturn x\n}\n")
-		fmt.Fprintf(b, "func %s(x %s) uint64 { return x.v.H }\n\n", h, ex)
+		if t.Pure {
+			fmt.Fprintf(b, "func %s(x %s) uint64 {\n", h, ex)
+		} else {
+			fmt.Fprintf(b, "func %s(x %s) uint64 {\n\tif x.v.H != 0 {\n\t\treturn x.v.H\n\t}\n", h, ex)
+		}
+		hasF := false
+		var parts []string
+		for _, f := range t.Fields {
+			if s.carriesH(s.Types[f.T]) {
+				hasF = true
+				parts = append(parts, fmt.Sprintf("h%d(x.%s)", f.T, f.Name))
+			} else {
+				parts = append(parts, "0")
+			}
+		}
+		if hasF {
+			// a struct assembled field by field (wire.Struct): identity derives from its fields
+			fmt.Fprintf(b, "\treturn probe.Mix(0x57, %s)\n}\n\n", strings.Join(parts, ", "))
+		} else {
+			fmt.Fprintf(b, "\treturn 0\n}\n\n")
+		}
 	case KPtr:
 		bm, bh := s.fn("mk", t.Base, pkg), s.fn("h", t.Base, pkg)
 		fmt.Fprintf(b, "func %s(h uint64) %s { x := %s(h); return &x }\n", mk, ex, bm)
